@@ -410,7 +410,7 @@ pub fn scenarios(thorough: bool) -> Vec<BookScenario> {
 pub fn check(rep: &Reporter) {
 	let thorough = rep.tier.thorough();
 	rep.set_rule(
-		"WebSocket connections (1–2) with max_subscriptions_per_connection ∈ {0,1,2}; peer scripts over {subscribe ×(cap+1…), unsubscribe own live / already unsubscribed / other connection's / never issued / wrong JSON type, close frame, abrupt drop, subscribe again after k endings} × handler scripts {accept and hold, accept and return, reject, drop pending, accept+watch closed(), accept+clone+drop one clone}; all peer actions and handler steps (and, per scenario, the cfg points inside accept/send) are scheduling points; whole tree or ≤K deviations. Monitor with the interval rule: every unsubscribe answer must equal the reference 'active' value at some position between request and answer; refusals -32006 must be justified by a full connection at some position of the call; slot count never exceeds the cap; is_closed() of a held sink equals ¬active.",
+		"WebSocket connections (1–2) with max_subscriptions_per_connection ∈ {0,1,2}; peer scripts over {subscribe ×(cap+1…), unsubscribe own live / already unsubscribed / other connection's / never issued / wrong JSON type, close frame, abrupt drop, subscribe again after k endings} × handler scripts {accept and hold, accept and return, reject, drop pending, accept+watch closed(), accept+clone+drop one clone}; all peer actions and handler steps (and, per scenario, the cfg points inside accept/send) are scheduling points; whole tree or ≤K deviations. Monitor with the interval rule: every unsubscribe answer must equal the reference 'active' value at some position between request and answer; refusals -32006 must be justified by a full connection at some position of the call; slot count never exceeds the cap; is_closed() of a held sink equals ¬active; a subscribe call answered with an error (incl. -32008 when max_response_body_size is below the accept() answer) has no live sink.",
 	);
 	rep.assume("active ⇔ accepted ∧ not unsubscribed ∧ connection open (on_session_closed not yet resolved) ∧ the handler holds at least one sink; slots = pending + subscriptions whose handlers still hold a sink");
 	for s in scenarios(thorough) {
